@@ -1,5 +1,264 @@
-"""History generator for C08 (identity)."""
+"""History generator for C08: identity caches, registry and pickling across 1-2 interpreters."""
+import random
+
+from . import events as E
+
+TABLE_ATTRS = ["symbol", "name", "isotope", "list", "_element", "properties", "__class__", "__dict__"]
+BAD_SYMBOLS = ["Xx", "fe", "FE", "Fee", "F e", "", "h", "Uuo", "d", "t", "N2", "symbol", "name", "list",
+               "_element", "properties", "isotope", "Ph", "Zz", "Dd"]
+BAD_NAMES = ["Iron", "IRON", "ferrum", "iron ", "", "Fe", "deuterium ", "Deuterium", "hydrogen2", "neutronn"]
+BAD_ISOSTR = ["4-D", "2-D", "1-H-1", "x-H", "H-", "-Fe", "56-fe", "56-Fe ", "56-Xx", "999-Fe", "57-", "-",
+              "--", "56--Fe", "5 6-Fe", "56.0-Fe", "1e1-Ne", "3-T", "Fe-56", "-1-H", "56-symbol", "2-list"]
+PROTOS = [0, 1, 2, 3, 4, 5]
+
+
+def atom_symbol(V, Z):
+    return V.els[Z]["symbol"]
+
+
+def valid_lookup(rng, V, tbl, isotopes_ok=True):
+    """A lookup by a seeded route together with the key [Z, A, q] it denotes."""
+    while True:
+        route = rng.choice(["Z", "symbol", "attr", "name", "isostr", "modattr", "iso", "ion", "isoion",
+                            "iterpos", "ionattr", "isoel", "special", "elements_attr"])
+        a = V.atom(rng, "el")
+        Z = a[0]
+        e = V.els[Z]
+        sym, name = e["symbol"], e["name"]
+        if route == "Z":
+            return ["lookup", tbl, "Z", Z, [Z, 0, 0]]
+        if route == "symbol":
+            return ["lookup", tbl, "symbol", sym, [Z, 0, 0]]
+        if route == "attr":
+            return ["lookup", tbl, "attr", sym, [Z, 0, 0]]
+        if route == "name":
+            return ["lookup", tbl, "name", name, [Z, 0, 0]]
+        if route == "modattr":
+            if tbl != "public":
+                continue
+            return ["lookup", tbl, "modattr", rng.choice([sym, name]), [Z, 0, 0]]
+        if route == "elements_attr":
+            if tbl != "public":
+                continue
+            return ["lookup", tbl, "elements_attr", sym, [Z, 0, 0]]
+        if route == "special":
+            k = rng.choice([("symbol", "D", 2), ("symbol", "T", 3), ("attr", "D", 2), ("attr", "T", 3),
+                            ("name", "deuterium", 2), ("name", "tritium", 3), ("isostr", "D", 2),
+                            ("isostr", "T", 3), ("isostr", "2-H", 2), ("isostr", "3-H", 3), ("iso", [1, 2], 2),
+                            ("modattr", "D", 2), ("modattr", "tritium", 3), ("modattr", "deuterium", 2),
+                            ("isostr", "n", 0), ("name", "neutron", 0), ("Z", 0, 0)])
+            if k[0] == "modattr" and tbl != "public":
+                continue
+            if k[1] in ("n", "neutron") or k[0] == "Z":
+                return ["lookup", tbl, k[0], k[1], [0, 0, 0]]
+            return ["lookup", tbl, k[0], k[1], [1, k[2], 0]]
+        if route == "isostr" and (not isotopes_ok or rng.random() < 0.3):
+            return ["lookup", tbl, "isostr", sym, [Z, 0, 0]]
+        if route in ("isostr", "iso", "isoion", "iterpos", "isoel") and (not isotopes_ok or not e["isotopes"]):
+            continue
+        if route == "isostr":
+            A = rng.choice(e["isotopes"])
+            s = "%d-%s" % (A, sym)
+            if rng.random() < 0.15:
+                s = rng.choice(["0%d-%s" % (A, sym), " %d-%s" % (A, sym), "+%d-%s" % (A, sym)])  # equal as keys
+            return ["lookup", tbl, "isostr", s, [Z, A, 0]]
+        if route == "iso":
+            A = rng.choice(e["isotopes"])
+            return ["lookup", tbl, "iso", [Z, A], [Z, A, 0]]
+        if route == "isoel":
+            A = rng.choice(e["isotopes"])
+            return ["lookup", tbl, "isoel", [Z, A], [Z, 0, 0]]
+        if route == "iterpos":
+            if rng.random() < 0.5:
+                return ["lookup", tbl, "iterpos", [None, V.Z.index(Z)], [Z, 0, 0]]
+            pos = rng.randrange(len(e["isotopes"]))
+            return ["lookup", tbl, "iterpos", [Z, pos], [Z, e["isotopes"][pos], 0]]
+        if not e["ions"]:
+            continue
+        q = rng.choice(e["ions"])
+        if route == "ion":
+            return ["lookup", tbl, "ion", [Z, q], [Z, 0, q]]
+        if route == "ionattr":
+            return ["lookup", tbl, "ionattr", [Z, q], [Z, 0, 0]]
+        if route == "isoion":
+            A = rng.choice(e["isotopes"])
+            return ["lookup", tbl, "isoion", [Z, A, q], [Z, A, q]]
+
+
+def bad_lookup(rng, V, tbl, isotopes_ok=True):
+    """An invalid neighbour of a valid key: must raise and leave the caches unchanged."""
+    while True:
+        route = rng.choice(["Z", "symbol", "attr", "name", "isostr", "modattr", "iso", "ion", "isoion"])
+        a = V.atom(rng, "el")
+        Z = a[0]
+        e = V.els[Z]
+        sym = e["symbol"]
+        if route == "Z":
+            return ["badkey", tbl, "Z", rng.choice([-1, 119, 120, 1000, "1", "Fe", None, 1.5])]
+        if route == "symbol":
+            return ["badkey", tbl, "symbol", rng.choice(BAD_SYMBOLS + [sym.lower() if len(sym) > 1 else sym + "x",
+                                                                    sym.upper() if len(sym) > 1 else sym + "q",
+                                                                    e["name"]])]
+        if route == "attr":
+            s = rng.choice([x for x in BAD_SYMBOLS if x and x not in TABLE_ATTRS] + [sym + "x", e["name"]])
+            return ["badkey", tbl, "attr", s]
+        if route == "name":
+            return ["badkey", tbl, "name", rng.choice(BAD_NAMES + [sym, e["name"].capitalize(), e["name"] + "s"])]
+        if route == "modattr":
+            if tbl != "public":
+                continue
+            return ["badkey", tbl, "modattr", rng.choice(["Xx", "fe", "Iron", "Dd", "Uuo", sym + "x"])]
+        if route == "isostr":
+            if rng.random() < 0.5 or not isotopes_ok or not e["isotopes"]:
+                return ["badkey", tbl, "isostr", rng.choice(BAD_ISOSTR)]
+            As = e["isotopes"]
+            A = rng.choice([As[0] - 1, As[-1] + 1, As[-1] + 50, 1000])
+            if A in As or A <= 0:
+                continue
+            return ["badkey", tbl, "isostr", "%d-%s" % (A, sym)]
+        if route == "iso":
+            As = e["isotopes"] if isotopes_ok else []
+            A = rng.choice([(As[0] - 1) if As else 5, (As[-1] + 1) if As else 7, 1000, -1, "56", None])
+            if A in As or A == 0:
+                continue
+            if Z == 1 and A in (2, 3):
+                continue
+            return ["badkey", tbl, "iso", [Z, A]]
+        if route == "ion":
+            q = rng.choice([0, 9, -9, 12, "2", None, 100])
+            if q in e["ions"]:
+                continue
+            return ["badkey", tbl, "ion", [Z, q]]
+        if route == "isoion":
+            if not isotopes_ok or not e["isotopes"]:
+                continue
+            q = rng.choice([0, 9, -9, 12])
+            if q in e["ions"]:
+                continue
+            return ["badkey", tbl, "isoion", [Z, rng.choice(e["isotopes"]), q]]
 
 
 def gen(seed, V, tier, index, bias=None):
-    raise NotImplementedError
+    rng = random.Random(seed)
+    fam = {f: rng.random() < p for f, p in (
+        ("lookup", 0.8), ("badkey", 0.6), ("roundtrip", 0.5), ("container", 0.3), ("iter", 0.3),
+        ("private", 0.6), ("exchange", 0.45), ("add_isotope", 0.3), ("lazy", 0.4), ("sweep", 0.5),
+        ("change", 0.3))}
+    names = ["T1", "T2"]
+    two_nodes = fam["exchange"] and rng.random() < 0.7
+    cfg = {"families": sorted(f for f, on in fam.items() if on), "two_nodes": two_nodes}
+    nodes = [0, 1] if two_nodes else [0]
+    # per node: which private tables exist and whether their isotopes exist (predicted)
+    have = {n: {} for n in nodes}
+    added = {}
+    evs = []
+    msg = 0
+    outbox = []      # (msgid, tbl, ref) waiting for delivery
+    n_ev = rng.choice([4, 8, 12, 20, 30])
+    deep = tier == "thorough"
+
+    def tables_of(n, need_mass=False):
+        out = ["public"]
+        for t, m in have[n].items():
+            if not need_mass or m:
+                out.append(t)
+        return out
+
+    def pick_atom(n, t):
+        a = V.atom(rng)
+        if t != "public" and not have[n].get(t):
+            if not (a[0] == 1 and a[1] in (2, 3)):
+                a[1] = 0
+        return a
+
+    spins = 0
+    while len(evs) < n_ev:
+        spins += 1
+        if spins > 4 * n_ev:
+            # families that are switched off made no progress: fall back to plain lookups
+            evs.append([rng.choice(nodes), valid_lookup(rng, V, "public", True)])
+            continue
+        n = rng.choice(nodes)
+        r = rng.random()
+        t = rng.choice(tables_of(n))
+        iso_ok = t == "public" or bool(have[n].get(t))
+        if fam["private"] and r < 0.10:
+            name = rng.choice(names)
+            evs.append([n, ["newtable", name]])             # may be a duplicate: must raise
+            have[n].setdefault(name, False)
+            if rng.random() < 0.6:
+                evs.append([n, ["init", name, "mass", False]])
+                have[n][name] = True
+        elif fam["private"] and r < 0.14 and len(tables_of(n)) > 1:
+            tt = rng.choice(tables_of(n)[1:])
+            g = rng.choice(E.INIT_GROUPS)
+            evs.append([n, ["init", tt, g, rng.random() < 0.2]])
+            if g == "mass":
+                have[n][tt] = True
+        elif fam["lookup"] and r < 0.40:
+            evs.append([n, valid_lookup(rng, V, t, iso_ok)])
+        elif fam["badkey"] and r < 0.55:
+            evs.append([n, bad_lookup(rng, V, t, iso_ok)])
+        elif fam["roundtrip"] and r < 0.65:
+            evs.append([n, ["roundtrip", t, pick_atom(n, t), rng.choice(["copy", "deepcopy"] + ["pickle:%d" % p for p in PROTOS])]])
+        elif fam["container"] and r < 0.70:
+            refs = [pick_atom(n, t) for _ in range(rng.choice([2, 3, 5]))]
+            refs += [refs[0]]
+            evs.append([n, ["container", t, refs, rng.choice(["deepcopy", "pickle:2", "pickle:4", "pickle:5"])]])
+        elif fam["iter"] and r < 0.75:
+            Z = None if rng.random() < 0.3 else rng.choice(V.Z)
+            evs.append([n, ["iter", t, Z]])
+        elif fam["exchange"] and r < 0.85:
+            msg += 1
+            a = pick_atom(n, t)
+            if rng.random() < 0.2:
+                refs = [pick_atom(n, t) for _ in range(3)]
+                evs.append([n, ["dump_container", msg, t, refs, rng.choice(PROTOS)]])
+                outbox.append((msg, t, refs, True))
+            else:
+                evs.append([n, ["dump", msg, t, a, rng.choice(PROTOS)]])
+                outbox.append((msg, t, a, False))
+        elif fam["add_isotope"] and r < 0.88:
+            Z = rng.choice(V.Z)
+            As = V.els[Z]["isotopes"]
+            A = rng.choice([(As[0] - 1) if As else 1, (As[-1] + 2) if As else 9, 500, (As[len(As) // 2]) if As else 3])
+            if A > 0:
+                evs.append([n, ["add_isotope", t, Z, A]])
+                added.setdefault((n, t, Z), set()).add(A)
+                if rng.random() < 0.7:
+                    evs.append([n, ["iter", t, Z]])
+                if rng.random() < 0.5:
+                    evs.append([n, ["lookup", t, "iso", [Z, A], [Z, A, 0]]])
+        elif fam["lazy"] and r < 0.92:
+            evs.append([n, E.gen_read(rng, V)])
+        elif fam["change"] and r < 0.95 and len(tables_of(n)) > 1:
+            src, dst = rng.choice(tables_of(n)), rng.choice(tables_of(n))
+            a = pick_atom(n, src)
+            if a[1] and dst != "public" and not have[n].get(dst) and not (a[0] == 1 and a[1] in (2, 3)):
+                a[1] = 0
+            evs.append([n, ["change_to", src, a, dst]])
+        elif fam["sweep"] and r < 0.98:
+            zs = None if deep and rng.random() < 0.3 else sorted(rng.sample(V.Z, 8) + [0, 1])
+            evs.append([n, ["sweep", t, zs, deep]])
+        elif fam["exchange"] and r < 0.995 and rng.random() < 0.3:
+            evs.append([n, ["restart"]])
+            have[n] = {}
+            for k in [k for k in added if k[0] == n]:
+                del added[k]
+        # deliveries: seeded delay, reordering, duplication; to the other node or back to the sender
+        if outbox and rng.random() < 0.5:
+            rng.shuffle(outbox)
+            m, mt, ref, is_cont = outbox.pop()
+            dst = rng.choice(nodes)
+            ev = ["load", m, mt, ref]
+            evs.append([dst, ev])
+            if rng.random() < 0.2:
+                evs.append([rng.choice(nodes), list(ev)])
+    for m, mt, ref, is_cont in outbox:
+        evs.append([rng.choice(nodes), ["load", m, mt, ref]])
+    # final sweeps: every run ends with an invariant sweep of every table on every node
+    for n in nodes:
+        for t in tables_of(n):
+            zs = None if deep and rng.random() < 0.5 else sorted(set(rng.sample(V.Z, 10) + [0, 1, 26]))
+            evs.append([n, ["sweep", t, zs, deep and rng.random() < 0.3]])
+    return {"prop": "C08", "seed": seed, "index": index, "cfg": cfg, "events": evs}
